@@ -125,8 +125,12 @@ class Engine(EngineBase):
             else:
                 ops.append([k, t, h])
         ops += [["exit"]] * depth
+        # further handles on a job are independently opened ones, or copies of the first handle (made
+        # before or after that one has touched its document)
+        hkinds = [[rng.choice(["open", "open", "open", "copy", "deepcopy", "deepcopy_touched", "pickle_touched"])
+                   for _ in range(nh[t])] for t in range(ntargets)]
         return {"knobs": knobs, "kind": kind, "ntargets": ntargets, "nh": nh, "ops": ops,
-                "path_spellings": rng.random() < 0.4}
+                "path_spellings": rng.random() < 0.4, "hkinds": hkinds}
 
     def shrink(self, scenario):
         for c in generic_shrink(scenario, "ops"):
@@ -199,7 +203,17 @@ class World:
                            os.path.join(os.path.dirname(self.pp), ".", os.path.basename(self.pp)),
                            self.pp.replace("/p", "//p", 1)][(hi + t) % 4 if sc.get("path_spellings") else 0]
                 p = self.signac.Project(spelled)
-                hs.append(p if t == sc["ntargets"] - 1 else p.open_job(self.sps[t]))
+                hk = (sc.get("hkinds") or [["open"] * 4] * 8)[t][hi] if (hi and t != sc["ntargets"] - 1) else "open"
+                if hk == "open":
+                    hs.append(p if t == sc["ntargets"] - 1 else p.open_job(self.sps[t]))
+                else:
+                    import copy
+                    import pickle
+                    if hk.endswith("_touched"):
+                        hs[0].doc  # the lazily created document object exists before the copy is made
+                    hs.append(copy.copy(hs[0]) if hk == "copy" else
+                              pickle.loads(pickle.dumps(hs[0])) if hk.startswith("pickle") else copy.deepcopy(hs[0]))
+                    self.run.probe("handle_" + hk)
             self.handles.append(hs)
 
     def doc(self, t, h):
